@@ -17,7 +17,7 @@ RULE = ("directory trees (as C13) x 0..5 exclude patterns built from the tree's 
         "page iff neither it nor a directory between the input path and it matches, an excluded directory has no output "
         "content, an excluded input produces no output. Non-trivial: >=2 matching sibling entries in one directory, or a "
         "pattern set matching every CMake file of a directory; distinct by SHA-1 of the case")
-RULE_MORE = 'input path through a symlinked parent directory (patterns use the spelling given); another input documented first in the same invocation.'
+RULE_MORE = 'input path through a symlinked parent directory (patterns use the spelling given); another input documented first in the same invocation. Later: output = parent of the input; names with commas and regex metacharacters; Settings object reused through the API.'
 ASSUMPTIONS = ["patterns are matched against absolute paths (as the help text of -e and the docs state); sandbox ancestors "
                "use names no generated pattern matches", "auto-exclusion off, recursive on unless drawn otherwise"]
 BUDGET = {"quick": {"shards": 8, "examples": 200}, "thorough": {"shards": 16, "examples": 2500}}
